@@ -4,6 +4,9 @@
 //!   traj     exact trajectories of `do_time_step` with a recorded RNG (all move kinds, update counts,
 //!            importance sampling on/off); oracle: `get_energy` == direct sum over edges and biases,
 //!            number of spins unchanged, after every step.
+//!   api      random interleavings of every public call (new, new_with_state_and_rng, get_energy, set_state,
+//!            clone_state/state_ref, do_time_step, enable_edge_importance_sampling, clone, Debug, get_state);
+//!            oracle after every call: get_energy() (twice) == direct sum of the state read back.
 //!   thr      acceptance probability of the spin / edge move measured by bisection on the word that
 //!            feeds `gen::<f64>()`; compared with the model's `exp(-beta dE)`.
 //!   imp      boundaries of the importance-sampling table measured by bisection on the `gen_range(0.0..total)` word.
@@ -1050,6 +1053,114 @@ fn mode_regress_imp() {
     }
 }
 
+// ------------------------------------------------------------------------------------------------
+// api: random interleavings of every public call of GraphState; after every call the energy reported
+// by get_energy() (asked twice) must be the direct sum over edges and biases of the state read back
+// through state_ref().
+//   ops: W<bits> new_with_state_and_rng | N new (random state from the rng) | E get_energy | Q clone_state
+//        S<bits> set_state | T:<ns>:<ne>:<nw>:<basic> do_time_step | I0/I1 enable_edge_importance_sampling
+//        C clone (continue with the clone) | D Debug formatting | G get_state(self) (last op)
+// ------------------------------------------------------------------------------------------------
+fn api_case(m: &Model, beta: f64, ops: &[String], seed: u64) {
+    let rng = Shared::recording(vec![], seed);
+    let handle = rng.clone();
+    let mm = m.clone();
+    let opsv = ops.to_vec();
+    let r = catch(move || {
+        let mut outs: Vec<String> = vec![];
+        let mut oracle: Result<(), String> = Ok(());
+        let mut g: Option<GraphState<Shared>> = None;
+        let mut rng = Some(rng);
+        let parse_bits = |t: &str| -> Vec<bool> { t.chars().map(|c| c == '1').collect() };
+        let popt = |t: &str| -> Option<usize> { if t == "-" { None } else { Some(t.parse().unwrap()) } };
+        for (k, op) in opsv.iter().enumerate() {
+            let (head, rest) = op.split_at(1);
+            match head {
+                "W" => g = Some(GraphState::new_with_state_and_rng(parse_bits(rest), &mm.edges, &mm.biases, rng.take().unwrap())),
+                "N" => g = Some(GraphState::new(&mm.edges, &mm.biases, rng.take().unwrap())),
+                "E" => {
+                    let _ = g.as_ref().unwrap().get_energy();
+                }
+                "Q" => {
+                    let _ = g.as_ref().unwrap().clone_state();
+                }
+                "S" => g.as_mut().unwrap().set_state(parse_bits(rest)),
+                "T" => {
+                    let f: Vec<&str> = rest.split(':').collect();
+                    g.as_mut().unwrap().do_time_step(beta, popt(f[1]), popt(f[2]), popt(f[3]), Some(f[4] == "1")).unwrap();
+                }
+                "I" => g.as_mut().unwrap().enable_edge_importance_sampling(rest == "1"),
+                "C" => {
+                    let c = g.as_ref().unwrap().clone();
+                    g = Some(c);
+                }
+                "D" => {
+                    let _ = format!("{:?}", g.as_ref().unwrap());
+                }
+                "G" => {
+                    let st = g.take().unwrap().get_state();
+                    outs.push(format!("{} -", bits(&st)));
+                    continue;
+                }
+                _ => panic!("bad op"),
+            }
+            let gr = g.as_ref().unwrap();
+            let st = gr.state_ref().to_vec();
+            let e1 = gr.get_energy();
+            let e2 = gr.get_energy();
+            let d = mm.direct_energy(&st);
+            if oracle.is_ok() {
+                if st.len() != mm.n() {
+                    oracle = Err(format!("after op {} ({}): {} spins instead of {}", k, op, st.len(), mm.n()));
+                } else if (e1 - d).abs() > 1e-9 || (e2 - d).abs() > 1e-9 {
+                    oracle = Err(format!("after op {} ({}): get_energy() = {} (asked again: {}) but the direct sum over edges and biases of the state read back ({}) is {}", k, op, e1, e2, bits(&st), d));
+                }
+            }
+            outs.push(format!("{} {}", bits(&st), rat(e1)));
+        }
+        (outs, oracle)
+    });
+    let words = handle.log();
+    let input = format!("api {} {} {} {}", m.show(), rat(beta), ops.join(","), list(&words));
+    match r {
+        Ok((outs, oracle)) => emit(true, &input, &format!("{} ok", outs.join(" ")), Some(oracle)),
+        Err(p) => emit(true, &input, "PANIC", Some(Err(format!("panicked: {}", p)))),
+    }
+}
+
+fn mode_api(a: &Args, g: &mut SplitMix64) {
+    let ncases = if a.thorough { 8000 } else { 800 };
+    for _ in 0..ncases {
+        let n = 2 + g.below(4) as usize;
+        let shape = g.below(7);
+        let (m, _) = gen_model_iso(g, n, shape);
+        let beta = g.dyadic(0, 2, 8);
+        let mut ops: Vec<String> = vec![if g.chance(1, 4) { "N".to_string() } else { format!("W{}", bits(&rand_state(g, n))) }];
+        let len = 3 + g.below(10);
+        for _ in 0..len {
+            let op = match g.below(12) {
+                0 | 1 => "E".to_string(),
+                2 | 3 | 4 => format!("S{}", bits(&rand_state(g, n))),
+                5 | 6 => {
+                    let cnt = |g: &mut SplitMix64| -> String { if g.chance(1, 3) { "-".into() } else { g.below(4).to_string() } };
+                    format!("T:{}:{}:{}:{}", cnt(g), cnt(g), cnt(g), g.below(2))
+                }
+                7 => format!("I{}", g.below(2)),
+                8 => "C".to_string(),
+                9 => "D".to_string(),
+                10 => "Q".to_string(),
+                _ => "E".to_string(),
+            };
+            stat(&format!("api_op_{}", &op[..1]), 1);
+            ops.push(op);
+        }
+        if g.chance(1, 4) {
+            ops.push("G".to_string());
+        }
+        api_case(&m, beta, &ops, g.next());
+    }
+}
+
 /// `util::vec_help::remove_doubles` through the cfg(qmc_verif) wrapper: on a sorted list a value is kept
 /// (once) iff it occurs an odd number of times — this is the set of net-flipped sites of a worm.
 fn mode_helpers(a: &Args, g: &mut SplitMix64) {
@@ -1107,6 +1218,7 @@ fn main() {
         "thr" => mode_thr(&a, &mut g),
         "imp" => mode_imp(&a, &mut g),
         "helpers" => mode_helpers(&a, &mut g),
+        "api" => mode_api(&a, &mut g),
         "kern" => mode_kern(&a, &mut g),
         "kernworm" => mode_kern_worm(&a, &mut g),
         "search-worm" => mode_search_worm(&a, &mut g),
